@@ -770,14 +770,19 @@ class Configuration(_Configuration):
         if not instance:
             raise RuntimeError('This should not be happening, debug time !')
 
-        if not instance.pre():
-            return False
+        # pre() and post() parse and validate too (the prefix of a nested route, next-hop self, ...):
+        # what they reject is a refusal of this section, reported with its line like any other
+        try:
+            if not instance.pre():
+                return False
 
-        if not self.dispatch(self._structure[name]['sections'][location]):
-            return False
+            if not self.dispatch(self._structure[name]['sections'][location]):
+                return False
 
-        if not instance.post():
-            return False
+            if not instance.post():
+                return False
+        except (ValueError, IndexError, OSError, TypeError) as exc:
+            return self.error.set(str(exc))
 
         left = self.scope.leave()
         if not left:
@@ -835,7 +840,10 @@ class Configuration(_Configuration):
 
         instance = self._structure[name].get('class', None)
         if instance is not None:
-            instance.post()
+            try:
+                instance.post()
+            except (ValueError, IndexError, OSError, TypeError) as exc:
+                return self.error.set(str(exc))
         return True
 
     def run(self, name: str, command: str) -> bool | str:
